@@ -701,6 +701,29 @@ def g_factory(rng):
     return {"threads": [ops], "end": "return"}, {"gen": "g_factory", "threads": 1}
 
 
+def g_factory_from_callback(rng, racing=None):
+    """C09: the factory is first called, with changed arguments, from a done-callback running in the manager thread of the
+    instance in use (it cannot complete there), then from the main thread: the half-stopped previous instance must be
+    completely shut down before the fresh one is handed out."""
+    kw = {"max_workers": rng.randint(1, 3), "timeout": rng.choice([10, 5])}
+    kw2 = dict(kw, timeout=kw["timeout"] + 7)
+    kw3 = dict(kw, timeout=kw["timeout"] + 11, max_workers=rng.randint(1, 3))
+    ops = [{"op": "get_reusable", "ex": "e", "kw": kw, "factory": True}, {"op": "submit", "ex": "e", "task": t_ok(rng)}, {"op": "wait", "futs": "all"}]
+    racing = rng.random() < 0.3 if racing is None else racing
+    if racing:
+        # the main thread's replacement call is issued while the job whose callback will call the factory still runs
+        ops.append({"op": "submit", "ex": "e", "task": t_sleep(rng, 0.4, 0.6), "factory_cb": kw2})
+        ops.append({"op": "sleep", "d": 0.1})
+    else:
+        for _ in range(rng.randint(0, 2)):
+            ops.append({"op": "submit", "ex": "e", "task": t_sleep(rng, 0.1, 0.3)})
+        ops.append({"op": "submit", "ex": "e", "task": t_sleep(rng, 0.05, 0.1), "factory_cb": kw2})
+        ops += [{"op": "wait", "futs": "all"}, {"op": "sleep", "d": 0.4}]
+    ops += [{"op": "get_reusable", "ex": "e", "kw": kw3, "factory": True},
+            {"op": "submit", "ex": "e", "task": {"k": "probe", "what": ["init", "env", "pid"]}}, {"op": "wait", "futs": "all"}]
+    return {"threads": [ops], "end": "return"}, {"gen": "g_factory_from_callback", "threads": 1, "racing": racing}
+
+
 def g_factory_break_race(rng):
     """C09: a caller that has just seen a future fail with the pool's error asks the factory at once, while the
     manager thread is still busy failing the other futures (a slow done-callback keeps it there)."""
@@ -739,7 +762,7 @@ def g_factory_mt(rng):
     return {"threads": threads, "barriers": {"s": nt}, "end": "return", "tail": [{"op": "wait", "futs": "all"}]}, {"gen": "g_factory_mt", "threads": nt, "kw": {"timeout": tmo}}
 
 
-def g_resize(rng, family=None):
+def g_resize(rng, family=None, single=None):
     """C10: (old,new) pairs with in-flight work and idle time-outs.
     family 'callback_submits': the jobs in flight during the resize have done-callbacks that submit a follow-up task to the
     same executor (the joblib dispatch pattern) from the manager thread."""
@@ -748,7 +771,7 @@ def g_resize(rng, family=None):
         n1 = rng.choice([x for x in range(1, 6) if x != n0])
         kw = {"max_workers": n0, "timeout": 100}
         ops = [{"op": "new", "ex": "e", "kind": "reusable", "kw": kw}, {"op": "submit", "ex": "e", "task": t_ok(rng)}, {"op": "wait", "futs": "all"}]
-        single = rng.random() < 0.5  # exactly one job in flight: its work item is accounted for before its callbacks run
+        single = (rng.random() < 0.5) if single is None else single  # exactly one job in flight: its work item is accounted for before its callbacks run
         for _ in range(1 if single else rng.randint(n0, 2 * n0)):
             ops.append({"op": "submit", "ex": "e", "task": t_sleep(rng, 0.2, 0.4), "chain_cb": True})
         ops += [{"op": "sleep", "d": rng.choice([0.0, 0.05])},
